@@ -3,6 +3,7 @@ package interp
 // Path exploration: stateless re-execution under a decision vector.
 
 import (
+	"strconv"
 	"fmt"
 	"math/big"
 	"sort"
@@ -81,7 +82,43 @@ type Finding struct {
 	Replayed string // "", "confirmed", "not-confirmed"
 }
 
+// ProbeSpec describes the inputs of a path on which an obligation stayed unknown: the choices made (fixed) and the
+// ranges of the symbolic inputs. The driver draws concrete inputs from it and runs the harness natively: a failing
+// run turns the unknown into a replay-confirmed counterexample (an unknown never turns into a pass).
+type ProbeSpec struct {
+	Label string
+	Fixed map[string]string    // choices fixed by the path
+	Free  map[string][2]string // symbolic inputs: inclusive range (empty string: unbounded on that side)
+}
+
+func (r *run) isChoice(t *smt.Term) bool {
+	_, ok := r.choiceMemo[strings.TrimPrefix(t.Name, "in:")]
+	return ok
+}
+
+func (r *run) probeSpec(label string) ProbeSpec {
+	ps := ProbeSpec{Label: label, Fixed: map[string]string{}, Free: map[string][2]string{}}
+	for _, t := range r.inputs {
+		name := strings.TrimPrefix(t.Name, "in:")
+		if v, ok := r.choiceMemo[name]; ok {
+			ps.Fixed[name] = strconv.Itoa(v)
+			continue
+		}
+		lo, hi := "", ""
+		if t.Lo != nil {
+			lo = t.Lo.String()
+		}
+		if t.Hi != nil {
+			hi = t.Hi.String()
+		}
+		ps.Free[name] = [2]string{lo, hi}
+	}
+	return ps
+}
+
 type PathResult struct {
+	Diversified   int // obligations for which additional small counterexample candidates were requested
+	Probes        []ProbeSpec
 	OkModel       map[string]string // a model of the path condition of a clean path, when sampled
 	Outcome       string // ok, panic, unsupported, unwind, infeasible, steps
 	Detail        string
@@ -531,8 +568,50 @@ func (i *interpreter) obligation(cond *smt.Term, label string) {
 		r.res.AssertsOK[label]++
 	case smt.Sat:
 		r.finding("assert", label, "", m, "")
+		// further candidates with small operands: where the encoding is a relaxation (float64), only some of the
+		// candidates fail natively; small ones are the most likely to be reproducible and the easiest to read
+		if r.res.Diversified < 3 {
+			r.res.Diversified++
+			for _, bound := range []int64{100, 1000, 100000} {
+				var small []*smt.Term
+				for _, t := range r.inputs {
+					if t.Sort != smt.SInt || r.isChoice(t) {
+						continue
+					}
+					small = append(small, ctx.Le(ctx.Int64(-bound), t), ctx.Le(t, ctx.Int64(bound)))
+				}
+				if len(small) == 0 {
+					break
+				}
+				seen := map[string]bool{fmt.Sprint(m): true}
+				for k := 0; k < 8; k++ {
+					m2, res2 := r.modelWith(append(append([]*smt.Term{neg}, notK...), small...))
+					if res2 != smt.Sat || seen[fmt.Sprint(m2)] {
+						break
+					}
+					seen[fmt.Sprint(m2)] = true
+					r.finding("assert", label, "", m2, "")
+					// block this assignment of the free inputs
+					var diff []*smt.Term
+					for _, t := range r.inputs {
+						if t.Sort != smt.SInt || r.isChoice(t) {
+							continue
+						}
+						name := strings.TrimPrefix(t.Name, "in:")
+						if v, ok := new(big.Int).SetString(m2[name], 10); ok {
+							diff = append(diff, ctx.Not(ctx.Eq(t, ctx.Int(v))))
+						}
+					}
+					if len(diff) == 0 {
+						break
+					}
+					small = append(small, ctx.Or(diff...))
+				}
+			}
+		}
 	default:
 		r.res.Unknown = append(r.res.Unknown, label)
+		r.res.Probes = append(r.res.Probes, r.probeSpec(label))
 	}
 	if res != smt.Unsat || len(notK) > 0 {
 		// continue only where the assertion holds
